@@ -89,7 +89,32 @@ func genCfg(rnd *rand.Rand, focus string) runCfg {
 	if strings.HasPrefix(lc.Kind, "T") {
 		lc.Reuse = rnd.Intn(4) != 0
 	}
-	if lc.Kind == "KeyLocker" && rnd.Intn(4) != 0 {
+	if !strings.HasPrefix(lc.Kind, "T") && rnd.Intn(3) == 0 {
+		// one numeric value under several dynamic types.  Signed and unsigned of one width always come together (their
+		// bit patterns coincide), plus a few other kinds; the sharded lockers only get the kinds remap can route.
+		lc.KeyTy = "samevalue"
+		lc.Seeds = nil
+		v := []int{5, 1, 100, 7}[rnd.Intn(4)]
+		kinds := sameValueKinds
+		if lc.Kind == "KeyLockerGrp" {
+			kinds = sameValueGrp
+		}
+		pick := map[int]bool{}
+		for _, w := range rnd.Perm(5)[:1+rnd.Intn(2)] {
+			pick[2*w], pick[2*w+1] = true, true // intN / uintN (w = 4: int / uint)
+		}
+		for extra := rnd.Intn(3); extra > 0; extra-- {
+			pick[rnd.Intn(kinds)] = true
+		}
+		for ti := 0; ti < kinds; ti++ {
+			if pick[ti] {
+				lc.Seeds = append(lc.Seeds, 100*v+ti)
+			}
+		}
+		rnd.Shuffle(len(lc.Seeds), func(i, j int) { lc.Seeds[i], lc.Seeds[j] = lc.Seeds[j], lc.Seeds[i] })
+		nk = len(lc.Seeds)
+	}
+	if lc.Kind == "KeyLocker" && lc.KeyTy != "samevalue" && rnd.Intn(4) != 0 {
 		// boundary key values of an interface{} key; the untyped nil is in most of these universes
 		lc.KeyTy = "boundary"
 		if rnd.Intn(5) != 0 {
@@ -246,11 +271,101 @@ func replayChooser(acts []actT) chooser {
 }
 
 func emitRun(e *vh.Env, c runCfg, l lockerAPI, rounds []roundT, note string, class string) (accepted bool) {
+	shard := make([]int, len(c.L.Seeds))
+	for k := range shard {
+		shard[k] = l.Shard(k)
+	}
+	return emitCore(e, c, shard, rounds, note, class)
+}
+
+// emitChunked sends a long schedule that keeps returning to the empty locker as several compact cases: it is cut
+// wherever nobody is inside (after at least perChunk bursts), and each piece gets its own small key universe (the
+// keys it uses, renumbered in ascending order), so the replay in Coq stays short.  A piece is a complete schedule of
+// a fresh locker in its own right: none of its slots has been used before.
+func emitChunked(e *vh.Env, c runCfg, l lockerAPI, rounds []roundT, note string, class string, perChunk int) (accepted bool) {
+	accepted = true
+	start, bursts := 0, 0
+	for i := range rounds {
+		if len(rounds[i].Act.Burst) > 0 {
+			bursts++
+		}
+		last := i == len(rounds)-1
+		if !last && !(liveAfter(rounds[start:i+1]) == 0 && bursts >= perChunk) {
+			continue
+		}
+		piece := rounds[start : i+1]
+		used := map[int]bool{}
+		for _, r := range piece {
+			for _, b := range r.Act.Burst {
+				for _, k := range b.Keys {
+					used[k] = true
+				}
+			}
+			for _, k := range r.Act.Keys {
+				used[k] = true
+			}
+			for _, cn := range r.Obs.Counts {
+				used[cn[0]] = true
+			}
+		}
+		var keys []int
+		for k := range used {
+			keys = append(keys, k)
+		}
+		sort.Ints(keys)
+		rank := map[int]int{}
+		c2 := c
+		c2.L.Seeds = nil
+		shard := make([]int, len(keys))
+		for j, k := range keys {
+			rank[k] = j
+			c2.L.Seeds = append(c2.L.Seeds, c.L.Seeds[k])
+			shard[j] = l.Shard(k)
+		}
+		mapKeys := func(ks []int) []int {
+			out := make([]int, len(ks))
+			for j, k := range ks {
+				out[j] = rank[k]
+			}
+			return out
+		}
+		piece2 := make([]roundT, len(piece))
+		for j, r := range piece {
+			a := r.Act
+			if len(a.Keys) > 0 {
+				a.Keys = mapKeys(a.Keys)
+			}
+			if len(a.Burst) > 0 {
+				nb := make([]actT, len(a.Burst))
+				for x, b := range a.Burst {
+					b.Keys = mapKeys(b.Keys)
+					nb[x] = b
+				}
+				a.Burst = nb
+			}
+			o := r.Obs
+			o.Counts = make([][3]int, len(r.Obs.Counts))
+			for x, cn := range r.Obs.Counts {
+				o.Counts[x] = [3]int{rank[cn[0]], cn[1], cn[2]}
+			}
+			piece2[j] = roundT{Act: a, Obs: o}
+		}
+		n := ""
+		if last {
+			n = note
+		}
+		if !emitCore(e, c2, shard, piece2, n, class) {
+			accepted = false
+		}
+		start, bursts = i+1, 0
+	}
+	return
+}
+
+func emitCore(e *vh.Env, c runCfg, shard []int, rounds []roundT, note string, class string) (accepted bool) {
 	nk := len(c.L.Seeds)
-	shard := make([]int, nk)
 	var shs []string
 	for k := 0; k < nk; k++ {
-		shard[k] = l.Shard(k)
 		if shard[k] != 0 {
 			shs = append(shs, fmt.Sprintf("(%d,%d)", k, shard[k]))
 		}
